@@ -396,13 +396,221 @@ theorem removeAt_ok {h : Heap} (hi : HInv h) {i : Nat} {x : HEntry} (hx : h.live
     rcases pop_ok hi hlast with ⟨h3, hp, hinv3, _, hmax3, hfind3, hsum3, hlen3⟩
     exact ⟨h3, hp, hinv3, hmax3, hfind3, hsum3, hlen3⟩
 
+/-! ### the key map: untouched by everything below `removeInternal` / `put` -/
+
+theorem swap_keys {h h' : Heap} {i j : Nat} (hs : h.swap i j = some h') : h'.keys = h.keys := by
+  unfold Heap.swap at hs
+  cases h1 : h.live[i]? with
+  | none => simp [h1] at hs
+  | some ei =>
+    cases h2 : h.live[j]? with
+    | none => simp [h1, h2] at hs
+    | some ej =>
+      simp only [h1, h2, Option.bind_eq_bind, Option.bind_some, Option.pure_def] at hs
+      split at hs
+      · split at hs
+        · cases hs; rfl
+        · cases hs
+      · cases hs
+
+theorem up_keys : ∀ (f : Nat) {h h' : Heap} {j : Nat}, h.up f j = some h' → h'.keys = h.keys := by
+  intro f
+  induction f with
+  | zero => intro h h' j hs; simp [Heap.up] at hs
+  | succ f ih =>
+    intro h h' j hs
+    unfold Heap.up at hs
+    simp only at hs
+    split at hs
+    · cases hs; rfl
+    · split at hs
+      · cases hs
+      · cases hs; rfl
+      · split at hs
+        · cases hs
+        · rename_i h1 hsw
+          exact (ih hs).trans (swap_keys hsw)
+
+theorem down_keys : ∀ (f : Nat) {h h' : Heap} {i n r : Nat}, h.down f i n = some (h', r) → h'.keys = h.keys := by
+  intro f
+  induction f with
+  | zero => intro h h' i n r hs; simp [Heap.down] at hs
+  | succ f ih =>
+    intro h h' i n r hs
+    unfold Heap.down at hs
+    simp only at hs
+    split at hs
+    · cases hs; rfl
+    · split at hs
+      · cases hs
+      · split at hs
+        · cases hs
+        · cases hs; rfl
+        · split at hs
+          · cases hs
+          · rename_i h1 hsw
+            exact (ih hs).trans (swap_keys hsw)
+
+theorem sift_keys {h h' : Heap} {i n : Nat} (hs : h.sift i n = some h') : h'.keys = h.keys := by
+  unfold Heap.sift at hs
+  simp only at hs
+  split at hs
+  · cases hs
+  · rename_i h1 i1 hd
+    split at hs
+    · cases hs; exact down_keys _ hd
+    · exact (up_keys _ hs).trans (down_keys _ hd)
+
+theorem pop_keys {h h' : Heap} {x : HEntry} (hs : h.pop = some (h', x)) : h'.keys = h.keys := by
+  unfold Heap.pop at hs
+  split at hs
+  · cases hs
+  · cases hs; rfl
+
+theorem removeAt_keys {h h' : Heap} {i : Nat} {x : HEntry} (hs : h.removeAt i = some (h', x)) : h'.keys = h.keys := by
+  unfold Heap.removeAt at hs
+  split at hs
+  · cases hs
+  · simp only at hs
+    split at hs
+    · split at hs
+      · cases hs
+      · rename_i h1 hsw
+        split at hs
+        · cases hs
+        · rename_i h2 hsf
+          exact (pop_keys hs).trans ((sift_keys hsf).trans (swap_keys hsw))
+    · exact pop_keys hs
+
+theorem pushInternal_keys {h h' : Heap} {e : HEntry} (hs : h.pushInternal e = some h') : h'.keys = h.keys := by
+  unfold Heap.pushInternal at hs
+  split at hs
+  · cases hs; rfl
+  · cases hs
+
+theorem klookup_erase (m : List (Key × Nat)) (k k' : Key) :
+    klookup (kerase m k) k' = if k' = k then none else klookup m k' := by
+  unfold kerase
+  induction m with
+  | nil => simp [klookup]
+  | cons p t ih =>
+    rcases p with ⟨pk, pv⟩
+    by_cases h1 : pk = k
+    · subst h1
+      by_cases h2 : k' = pk
+      · subst h2; simp [klookup, List.filter_cons] at ih ⊢; exact ih
+      · have : ¬ pk = k' := fun h => h2 h.symm
+        simp [klookup, List.filter_cons, h2, this] at ih ⊢; exact ih
+    · by_cases h2 : k' = k
+      · subst h2
+        simp [klookup, List.filter_cons, h1] at ih ⊢; exact ih
+      · by_cases h3 : pk = k'
+        · simp [klookup, List.filter_cons, h1, h2, h3]
+        · simp [klookup, List.filter_cons, h1, h2, h3] at ih ⊢; exact ih
+
+theorem klookup_set (m : List (Key × Nat)) (k k' : Key) (v : Nat) :
+    klookup (kset m k v) k' = if k' = k then some v else klookup m k' := by
+  by_cases h : k' = k
+  · subst h; simp [kset, klookup]
+  · have h' : ¬ k = k' := fun e => h e.symm
+    have := klookup_erase m k k'
+    simp only [h, if_false] at this ⊢
+    rw [← this]
+    simp [kset, klookup, h']
+
+theorem find_idx {h : Heap} {x : Nat} {e : HEntry} (hf : h.find x = some e) : e.idx = x := by
+  unfold Heap.find at hf
+  split at hf
+  · cases hf
+  · split at hf
+    · cases hf
+    · split at hf
+      · cases hf; assumption
+      · cases hf
+
+/-- removing the entry tracked by `x.idx` and deleting its key keeps the key map in step -/
+theorem kinv_remove {h h' : Heap} (hk : KInv h) {x : HEntry} (hx : h.find x.idx = some x)
+    (hfind : ∀ y, h'.find y = if y = x.idx then none else h.find y)
+    (hkeys : h'.keys = kerase h.keys x.key) : KInv h' := by
+  intro k idx
+  rw [hkeys, klookup_erase]
+  have hxk : klookup h.keys x.key = some x.idx := (hk x.key x.idx).mpr ⟨x, hx, rfl⟩
+  constructor
+  · intro hl
+    by_cases hkk : k = x.key
+    · simp [hkk] at hl
+    · simp only [hkk, if_false] at hl
+      rcases (hk k idx).mp hl with ⟨e, he, hek⟩
+      refine ⟨e, ?_, hek⟩
+      rw [hfind]
+      have : idx ≠ x.idx := by
+        intro heq; rw [heq, hx] at he; cases he; exact hkk hek.symm
+      simp [this, he]
+  · rintro ⟨e, he, hek⟩
+    rw [hfind] at he
+    by_cases hi : idx = x.idx
+    · simp [hi] at he
+    · simp only [hi, if_false] at he
+      have hl := (hk k idx).mpr ⟨e, he, hek⟩
+      have hkk : k ≠ x.key := by
+        intro heq; rw [heq, hxk] at hl; cases hl; exact hi rfl
+      simp [hkk, hl]
+
+/-- putting an entry for a key that is not tracked, under an index that is not in use, and
+    recording it keeps the key map in step -/
+theorem kinv_put {h h' : Heap} (hk : KInv h) {key : Key} {exp bytes idx : Nat} (hfresh : h.find idx = none)
+    (hnokey : klookup h.keys key = none)
+    (hfind : ∀ y, h'.find y = if y = idx then some ⟨key, exp, bytes, idx⟩ else h.find y)
+    (hkeys : h'.keys = kset h.keys key idx) : KInv h' := by
+  intro k i
+  rw [hkeys, klookup_set]
+  constructor
+  · intro hl
+    by_cases hkk : k = key
+    · simp only [hkk, if_true, Option.some.injEq] at hl
+      subst hl
+      exact ⟨⟨key, exp, bytes, idx⟩, by rw [hfind]; simp, hkk.symm⟩
+    · simp only [hkk, if_false] at hl
+      rcases (hk k i).mp hl with ⟨e, he, hek⟩
+      refine ⟨e, ?_, hek⟩
+      rw [hfind]
+      have : i ≠ idx := by intro heq; rw [heq, hfresh] at he; cases he
+      simp [this, he]
+  · rintro ⟨e, he, hek⟩
+    rw [hfind] at he
+    by_cases hi : i = idx
+    · simp only [hi, if_true, Option.some.injEq] at he
+      subst he
+      simp at hek
+      simp [← hek, hi]
+    · simp only [hi, if_false] at he
+      have hl := (hk k i).mpr ⟨e, he, hek⟩
+      have hkk : k ≠ key := by
+        intro heq; rw [heq, hnokey] at hl; cases hl
+      simp [hkk, hl]
+
+theorem HInv_keys {h : Heap} (hi : HInv h) (ks : List (Key × Nat)) : HInv { h with keys := ks } :=
+  ⟨hi.ind_len, hi.total, hi.live_ok, hi.dead_lt, hi.dead_nodup, hi.disjoint⟩
+
+theorem removeInternal_ok {h : Heap} (hi : HInv h) {i : Nat} {x : HEntry} (hx : h.live[i]? = some x) :
+    ∃ h', h.removeInternal i = some (h', x) ∧ HInv h' ∧ h'.maxidx = h.maxidx ∧
+      (∀ y, h'.find y = if y = x.idx then none else h.find y) ∧
+      sumBytes h'.live + x.bytes = sumBytes h.live ∧ h'.live.length + 1 = h.live.length ∧
+      h'.keys = kerase h.keys x.key := by
+  rcases removeAt_ok hi hx with ⟨h', hr, hinv, hmax, hfind, hsum, hlen⟩
+  refine ⟨{ h' with keys := kerase h'.keys x.key }, ?_, HInv_keys hinv _, hmax, hfind, hsum, hlen, ?_⟩
+  · simp [Heap.removeInternal, hr]
+  · show kerase h'.keys x.key = kerase h.keys x.key
+    rw [removeAt_keys hr]
+
 /-! ### remove (validated) / removeFirst -/
 
 theorem remove_ok {h : Heap} (hi : HInv h) (idx : Nat) (key : Key) :
     (∃ e, h.find idx = some e ∧ e.key = key ∧
       ∃ h', h.remove idx key = some (h', some e.bytes) ∧ HInv h' ∧ h'.maxidx = h.maxidx ∧
         (∀ y, h'.find y = if y = idx then none else h.find y) ∧
-        sumBytes h'.live + e.bytes = sumBytes h.live ∧ h'.live.length + 1 = h.live.length)
+        sumBytes h'.live + e.bytes = sumBytes h.live ∧ h'.live.length + 1 = h.live.length ∧
+        h'.keys = kerase h.keys e.key)
     ∨ ((∀ e, h.find idx = some e → e.key ≠ key) ∧ h.remove idx key = some (h, none)) := by
   unfold Heap.remove
   cases h1 : h.indices[idx]? with
@@ -428,8 +636,8 @@ theorem remove_ok {h : Heap} (hi : HInv h) (idx : Nat) (key : Key) :
         rw [if_neg hc]
         have hc' : e.idx = idx ∧ e.key = key := by simpa using hc
         refine ⟨e, by rw [hf]; simp [hc'.1], hc'.2, ?_⟩
-        rcases removeAt_ok hi h2 with ⟨h', hr, hinv, hmax, hfind, hsum, hlen⟩
-        refine ⟨h', by rw [hr], hinv, hmax, ?_, hsum, hlen⟩
+        rcases removeInternal_ok hi h2 with ⟨h', hr, hinv, hmax, hfind, hsum, hlen, hkeys⟩
+        refine ⟨h', by rw [hr], hinv, hmax, ?_, hsum, hlen, hkeys⟩
         intro y
         have := hfind y
         rw [hc'.1] at this
@@ -438,13 +646,14 @@ theorem remove_ok {h : Heap} (hi : HInv h) (idx : Nat) (key : Key) :
 theorem removeFirst_ok {h : Heap} (hi : HInv h) (hne : h.live ≠ []) :
     ∃ h' x, h.removeFirst = some (h', x) ∧ x ∈ h.live ∧ HInv h' ∧ h'.maxidx = h.maxidx ∧
       (∀ y, h'.find y = if y = x.idx then none else h.find y) ∧
-      sumBytes h'.live + x.bytes = sumBytes h.live ∧ h'.live.length + 1 = h.live.length := by
+      sumBytes h'.live + x.bytes = sumBytes h.live ∧ h'.live.length + 1 = h.live.length ∧
+      h'.keys = kerase h.keys x.key := by
   cases hl : h.live with
   | nil => exact absurd hl hne
   | cons x t =>
     have hx : h.live[0]? = some x := by simp [hl]
-    rcases removeAt_ok hi hx with ⟨h', hr, hinv, hmax, hfind, hsum, hlen⟩
-    refine ⟨h', x, hr, by simp, hinv, hmax, hfind, ?_, ?_⟩
+    rcases removeInternal_ok hi hx with ⟨h', hr, hinv, hmax, hfind, hsum, hlen, hkeys⟩
+    refine ⟨h', x, hr, by simp, hinv, hmax, hfind, ?_, ?_, hkeys⟩
     · rw [← hl]; exact hsum
     · rw [← hl]; exact hlen
 
@@ -574,19 +783,22 @@ theorem push_fresh_ok {h : Heap} (hi : HInv h) (hlen : h.live.length = h.maxidx)
 theorem put_ok {h : Heap} (hi : HInv h) (key : Key) (exp bytes : Nat) :
     ∃ h' idx, h.put key exp bytes = some (h', idx) ∧ HInv h' ∧ h.find idx = none ∧
       (∀ y, h'.find y = if y = idx then some ⟨key, exp, bytes, idx⟩ else h.find y) ∧
-      sumBytes h'.live = sumBytes h.live + bytes ∧ h'.live.length = h.live.length + 1 := by
-  -- common part: `heap.Fix` after `pushInternal`
-  have fin : ∀ (h2 : Heap) (idx : Nat), Pushed h h2 ⟨key, exp, bytes, idx⟩ →
+      sumBytes h'.live = sumBytes h.live + bytes ∧ h'.live.length = h.live.length + 1 ∧
+      h'.keys = kset h.keys key idx := by
+  -- common part: `heap.Fix` after `pushInternal`, then `h.keys[key] = idx`
+  have fin : ∀ (h2 : Heap) (idx : Nat), Pushed h h2 ⟨key, exp, bytes, idx⟩ → h2.keys = h.keys →
       ∃ h', (match h2.sift (h2.live.length - 1) h2.live.length with
               | none => none
-              | some h3 => some (h3, idx)) = some (h', idx) ∧ HInv h' ∧
+              | some h3 => some ({ h3 with keys := kset h3.keys key idx }, idx)) = some (h', idx) ∧ HInv h' ∧
         (∀ y, h'.find y = if y = idx then some ⟨key, exp, bytes, idx⟩ else h.find y) ∧
-        sumBytes h'.live = sumBytes h.live + bytes ∧ h'.live.length = h.live.length + 1 := by
-    intro h2 idx hp
+        sumBytes h'.live = sumBytes h.live + bytes ∧ h'.live.length = h.live.length + 1 ∧
+        h'.keys = kset h.keys key idx := by
+    intro h2 idx hp hk2
     have hl2 : h2.live.length = h.live.length + 1 := by rw [hp.live]; simp
     rcases sift_ok hp.inv (h2.live.length - 1) h2.live.length (by omega) (Nat.le_refl _) with ⟨h3, hs, hsame, _⟩
-    refine ⟨h3, by rw [hs], hsame.inv, ?_, ?_, ?_⟩
+    refine ⟨{ h3 with keys := kset h3.keys key idx }, by rw [hs], HInv_keys hsame.inv _, ?_, ?_, ?_, ?_⟩
     · intro y
+      show h3.find y = _
       rw [hsame.find y]
       by_cases hy : y = idx
       · subst hy
@@ -594,8 +806,12 @@ theorem put_ok {h : Heap} (hi : HInv h) (key : Key) (exp bytes : Nat) :
         rw [find_some_iff hp.inv]
         exact ⟨rfl, h.live.length, by rw [hp.live]; simp⟩
       · simp only [hy, if_false]; exact hp.others y hy
-    · rw [hsame.sum, hp.live]; simp [sumBytes_append, sumBytes_cons, sumBytes_nil]
-    · rw [hsame.len, hl2]
+    · show sumBytes h3.live = _
+      rw [hsame.sum, hp.live]; simp [sumBytes_append, sumBytes_cons, sumBytes_nil]
+    · show h3.live.length = _
+      rw [hsame.len, hl2]
+    · show kset h3.keys key idx = _
+      rw [sift_keys hs, hk2]
   unfold Heap.put
   simp only
   by_cases hlt : h.live.length < h.maxidx
@@ -607,16 +823,42 @@ theorem put_ok {h : Heap} (hi : HInv h) (key : Key) (exp bytes : Nat) :
       rcases push_steal_ok hi hd key exp bytes with ⟨h2, hpu, hp⟩
       rw [hpu]
       simp only
-      rcases fin h2 d.idx hp with ⟨h', h1, h2', h3, h4, h5⟩
-      exact ⟨h', d.idx, h1, h2', hp.fresh, h3, h4, h5⟩
+      rcases fin h2 d.idx hp (pushInternal_keys hpu) with ⟨h', h1, h2', h3, h4, h5, h6⟩
+      exact ⟨h', d.idx, h1, h2', hp.fresh, h3, h4, h5, h6⟩
   · rw [if_neg hlt]
     simp only
     have hlen : h.live.length = h.maxidx := by have := hi.total; omega
     rcases push_fresh_ok hi hlen key exp bytes with ⟨h2, hpu, hp⟩
     rw [hpu]
     simp only
-    rcases fin h2 h.maxidx hp with ⟨h', h1, h2', h3, h4, h5⟩
-    exact ⟨h', h.maxidx, h1, h2', hp.fresh, h3, h4, h5⟩
+    rcases fin h2 h.maxidx hp (by have := pushInternal_keys hpu; exact this) with ⟨h', h1, h2', h3, h4, h5, h6⟩
+    exact ⟨h', h.maxidx, h1, h2', hp.fresh, h3, h4, h5, h6⟩
+
+/-- `removeKey`: nothing tracked for the key → nothing happens; otherwise the one entry of the key leaves -/
+theorem removeKey_ok {h : Heap} (hi : HInv h) (hk : KInv h) (key : Key) :
+    (klookup h.keys key = none ∧ h.removeKey key = some (h, none))
+    ∨ (∃ e, h.find e.idx = some e ∧ e.key = key ∧
+        ∃ h', h.removeKey key = some (h', some e.bytes) ∧ HInv h' ∧ KInv h' ∧ h'.maxidx = h.maxidx ∧
+          (∀ y, h'.find y = if y = e.idx then none else h.find y) ∧
+          sumBytes h'.live + e.bytes = sumBytes h.live ∧ h'.live.length + 1 = h.live.length ∧
+          klookup h'.keys key = none) := by
+  unfold Heap.removeKey
+  cases hl : klookup h.keys key with
+  | none => left; exact ⟨rfl, rfl⟩
+  | some idx =>
+    right
+    simp only
+    rcases (hk key idx).mp hl with ⟨e, he, hek⟩
+    have hei : e.idx = idx := find_idx he
+    rcases remove_ok hi idx key with ⟨e', he', hek', h', hr, hinv', hmax, hfind, hsum, hlen, hkeys⟩ | ⟨hno, _⟩
+    · rw [he] at he'; cases he'
+      refine ⟨e, by rw [hei]; exact he, hek, h', hr, hinv', ?_, hmax, by rw [hei]; exact hfind, hsum, hlen, ?_⟩
+      · exact kinv_remove hk (by rw [hei]; exact he) (by rw [hei]; exact hfind) hkeys
+      · rw [hkeys, klookup_erase, hek]; simp
+    · exact absurd hek (hno e he)
+
+theorem KInv_empty : KInv Heap.empty := by
+  intro k idx; simp [Heap.empty, klookup, Heap.find]
 
 theorem HInv_empty : HInv Heap.empty :=
   ⟨rfl, rfl, by intro p e h; simp [Heap.empty] at h, by intro d h; simp [Heap.empty] at h, by simp [Heap.empty],
